@@ -199,20 +199,20 @@ def r14_2_argument_checks(ctx):
     ctx.rule("R14.2", "arguments that do not fit the signature are refused when the expression is built: wrong count, non-dict for a transaction, wrong transaction type, wrong Python kind for a reference, wrong ABI type")
     f = ctx.model.find_func("InnerTxnBuilder.MethodCall", "pyteal.ast.itxn")
     need = [
-        ("argument-count", "len(args) == len(arg_type_specs)", False, "TealInputError"),
-        ("txn-must-be-dict", "isinstance(arg, dict)", False, "TealTypeError"),
-        ("txn-needs-type", "TxnField.type_enum in arg", False, "TealInputError"),
-        ("txn-type-is-enum", "type(arg[TxnField.type_enum]) is EnumInt", False, "TealTypeError"),
+        ("argument-count", "len(args) == len(abi.type_specs_from_signature(method_signature)[0])", False, "TealInputError"),
+        ("txn-must-be-dict", "isinstance(args[idx], dict)", False, "TealTypeError"),
+        ("txn-needs-type", "TxnField.type_enum in args[idx]", False, "TealInputError"),
+        ("txn-type-is-enum", "type(args[idx][TxnField.type_enum]) is EnumInt", False, "TealTypeError"),
     ]
     for name, test, pol, exc in need:
-        hits = [r for r in q.raises_of(f.node) if q.raise_type(r) == exc and q.nguards(r) and q.nguards(r)[-1] == (test, pol)]
+        hits = [r for r in q.raises_of(f.node) if q.raise_type(r) == exc and q.rguards(f.node, r) and q.rguards(f.node, r)[-1] == (test, pol)]
         ctx.check(len(hits) == 1, "R14.2", f"MethodCall:{name}", f"a {exc} guarded by `{'' if pol else 'not '}{test}` is required; found {len(hits)}", f.where, fact={})
     # every kind dispatch ends in a refusal
     els = [r for r in q.raises_of(f.node) if q.raise_type(r) == "TealTypeError" and len(r.exc.args) == 2 and u(r.exc.args[1]).startswith("abi.") and u(r.exc.args[1]).endswith("| Expr")]
     ctx.check(len(els) == 4, "R14.2", "MethodCall:kind-fallthrough", f"each of the four argument kinds (account, application, asset, plain) must refuse values that are neither the ABI type nor an Expr; found {len(els)} such refusals", f.where, fact={"n": len(els)})
     # raw expressions are type-checked
-    rts = sorted(u(c) for c in q.calls_named(f.node, "require_type", into_nested=False))
-    ctx.check(rts == sorted(["require_type(app_id, TealType.uint64)", "require_type(arg, TealType.bytes)", "require_type(arg, TealType.uint64)", "require_type(arg, TealType.uint64)", "require_type(arg, TealType.bytes)"]), "R14.2", "MethodCall:raw-expression-types", f"raw expressions must be type-checked (address bytes, ids uint64, encoded value bytes); found {rts}", f.where, fact={"checks": rts})
+    rts = sorted(q.rtext(f.node, c) for c in q.calls_named(f.node, "require_type", into_nested=False))
+    ctx.check(rts == sorted(["require_type(app_id, TealType.uint64)", "require_type(args[idx], TealType.bytes)", "require_type(args[idx], TealType.uint64)", "require_type(args[idx], TealType.uint64)", "require_type(args[idx], TealType.bytes)"]), "R14.2", "MethodCall:raw-expression-types", f"raw expressions must be type-checked (address bytes, ids uint64, encoded value bytes); found {rts}", f.where, fact={"checks": rts})
     ctx.require_min("R14.2", 6)
 
 
